@@ -517,6 +517,8 @@ def run(ctx):
     rules.append(r4)
     rules.append(_relation_rule(ctx))
     rules.append(reference_resolution_rule(ctx, "C03", "C03.R6"))
+    from .c10 import _classifier_rule
+    rules.append(_classifier_rule(ctx, "C03", "C03.R7"))
     return rules
 
 
